@@ -131,7 +131,7 @@ structure Done {τ : Type} (H : Hash) (Z : Zip τ) (x : Nat) (dm : Bool) (rs : L
         (dm = false → s.final = some (.file s.spool)) ∧
         (dm = true → ∃ t, Z.unzip s.spool = some t ∧ s.final = some (.dir t))
   bad : ∀ e, s.result = .failed e →
-        s.final = none ∧ s.acks = [] ∧ s.tmpExists = (!dm) ∧
+        (e ≠ .badZipFile → s.final = none) ∧ s.acks = [] ∧ s.tmpExists = (!dm) ∧
         ((e = .connectionClosed ∧ l = true) ∨
          (e = .assertionError ∧ x < rs.flatten.length) ∨
          (e = .badZipFile ∧ dm = true ∧ ∃ sp, sp <+: rs.flatten ∧ sp.length = x ∧ Z.unzip sp = none))
@@ -161,7 +161,8 @@ theorem done_of_fired {τ : Type} (H : Hash) (Z : Zip τ) (x : Nat) (dm cl l : B
       cases hz : Z.unzip sp with
       | none =>
         have : resume H Z (firedSt (τ := τ) x true cl sp q true) =
-            { firedSt (τ := τ) x true cl sp q true with result := .failed .badZipFile } := by
+            { firedSt (τ := τ) x true cl sp q true with
+              result := Outcome.failed Err.badZipFile, final := Option.map Node.dir (Z.partialTree sp) } := by
           simp [resume, transferTail, firedSt, hne, writeDirectory, hz]
         rw [this]
         constructor <;> simp [firedSt]
